@@ -191,6 +191,8 @@ def c_template_vj(chk):
             it.assume(c)
         return make_template(), [], {}, {}
     (p,) = sel(chk.summarize("hydrodynamicsTemplateModel", "HydrodynamicsTemplateModel.findJouguetVelocity", mk))
+    from .common import template_cross
+    template_cross(chk, "findJouguetVelocity", [p], [], lambda rnd, env: {})
     vJ = p.value
     cb2 = cb * cb
     # CJ condition of the template EOS: with v- = cb the junction relation 3 al (1 - vp^2) vm cb^2 = (vp - vm)(vp vm - cb^2)
@@ -213,6 +215,9 @@ def c_template_vj(chk):
     (q,) = sel(chk.summarize("hydrodynamicsTemplateModel", "HydrodynamicsTemplateModel.detonationVAndT", mk2,
                              registry={"HydrodynamicsTemplateModel._findTm": findTm}))
     vp, vm, Tp, Tm = q.value
+    # native cross-check / replay on the first three components (T- comes from _findTm, under contract here)
+    template_cross(chk, "detonationVAndT", [q], ["vw"], lambda rnd, env: {"vw": rnd.uniform(0.85, 0.98), "alN": rnd.uniform(0.01, 0.05)},
+                   result=lambda pth: list(pth.value[:3]), compare=lambda r: r["result"][:3])
     part = vw**2 + cb2 * (1 - 3 * (1 - vw**2) * al)
     disc = part**2 - 4 * cb2 * vw**2
     f2 = fn + ".detonationVAndT"
